@@ -147,14 +147,22 @@ def proof_gate(prop, theorems, extra_modules=(), thorough=False):
     os.makedirs(os.path.join(CACHE, "gate"), exist_ok=True)
     gv = os.path.join(CACHE, "gate", "Gate_%s.v" % prop)
     with open(gv, "w") as f:
-        f.write("From N2 Require Import Props.%s.\n" % prop)
-        for m in extra_modules:
+        f.write("From Coq Require Import String.\nFrom N2 Require Import Props.%s.\n" % prop)
+        # the vocabulary of the statements: whatever the statement file itself imports
+        ptxt = strip_comments(open(os.path.join(COQ, "theories", "Props", "%s.v" % prop)).read())
+        mods = list(extra_modules)
+        for mm in re.finditer(r"From\s+N2\s+Require\s+(?:Import|Export)\s+(.*?)\.(?=\s|$)", ptxt, re.S):
+            for x in mm.group(1).split():
+                if x not in mods:
+                    mods.append(x)
+        for m in mods:
             f.write("From N2 Require Import %s.\n" % m)
         for name, stmt in theorems:
             f.write('Goal True. idtac "@@THM %s". exact I. Qed.\n' % name)
+            q = "N2.Props.%s.%s" % (prop, name)
             if stmt:
-                f.write("Check (%s : %s).\n" % (name, stmt))
-            f.write("Print Assumptions %s.\n" % name)
+                f.write("Timeout 120 Check (%s : %s).\n" % (q, stmt))
+            f.write("Print Assumptions %s.\n" % q)
         f.write('Goal True. idtac "@@END". exact I. Qed.\n')
     rc, out = sh(["coqc", "-Q", os.path.join(COQ, "theories"), "N2", "-o",
                   os.path.join(CACHE, "gate", "Gate_%s.vo" % prop), gv], timeout=600)
